@@ -216,6 +216,22 @@ class Frames:
                         bind[sym] = act
         self._bindings = getattr(self, "_bindings", [])
         self._bindings.append(bind)
+        # a method that RE-FRAMES state — `self.X = transform_points(a2b, ... self.X ...)` with a2b a pose parameter — reads self.X in frame a until that store
+        # and in frame b afterwards: inside such a method the attribute is tracked flow-sensitively (the class-wide table only knows the final frame)
+        if "self" in env:
+            for st_ in ast.walk(f.node):
+                if isinstance(st_, ast.Assign) and len(st_.targets) == 1 and isinstance(st_.targets[0], ast.Attribute) and u(st_.targets[0].value) == "self":
+                    attr_ = st_.targets[0].attr
+                    reads_self = any(isinstance(n_, ast.Attribute) and n_.attr == attr_ and u(n_.value) == "self" for n_ in ast.walk(st_.value))
+                    # the value may go through locals computed from self.X before: look for any transform_* call with a pose parameter in the method
+                    poses_ = [c_.args[0].id for c_ in ast.walk(f.node) if isinstance(c_, ast.Call) and (call_name(c_) or "").split(".")[-1] in ("transform_points", "transform_directions", "transform_point", "transform_direction")
+                              and c_.args and isinstance(c_.args[0], ast.Name) and c_.args[0].id in f.params() and env.get(c_.args[0].id) is not None and env[c_.args[0].id].kind == "pose"]
+                    uses_ = any(isinstance(n_, ast.Attribute) and n_.attr == attr_ and u(n_.value) == "self" and isinstance(n_.ctx, ast.Load) for n_ in ast.walk(f.node))
+                    if poses_ and uses_ and len(set(poses_)) == 1 and ("self." + attr_) not in env:
+                        src_ = env[poses_[0]].a
+                        if src_ is not None and (reads_self or any(isinstance(c_, ast.Call) and (call_name(c_) or "").split(".")[-1].startswith("transform_") for c_ in ast.walk(st_.value))
+                                                 or isinstance(st_.value, (ast.Name, ast.Call))):
+                            env["self." + attr_] = Vec(src_, None, True)
         try:
             self._body(f.node.body, env, f, rets, record=record)
         finally:
@@ -345,6 +361,8 @@ class Frames:
                 for a in t.elts:
                     self._assign(a, None, env, f, st, sink, record)
         elif isinstance(t, ast.Attribute) and isinstance(t.value, ast.Name) and t.value.id == "self":
+            if ("self." + t.attr) in env:
+                env["self." + t.attr] = v
             if sink is not None:
                 pf = pose_frames(t.attr)
                 val = v
@@ -541,6 +559,8 @@ class Frames:
                 if b is not None and b.kind == "pose":
                     return None
                 return b
+            if isinstance(node.value, ast.Name) and node.value.id == "self" and ("self." + node.attr) in env:
+                return env["self." + node.attr]
             base = self.ev(node.value, env, f, record)
             if base is not None and base.kind == "self" and base.a is not None:
                 pf = pose_frames(node.attr)
